@@ -359,3 +359,21 @@ def df_wrap(fn):
         return fn(ev, a, k, None, None)
     w.kw = getattr(fn, "kw", None)
     return w
+
+
+def nearest_int_form(step):
+    """x if `step` is one of the spellings of 'the integer nearest to x' (round(x), int(round(x)), int(x + 1/2),
+    floor(x + 1/2), rint), else None.  int()/floor of the bare quotient is NOT one of them."""
+    step = sp.sympify(step)
+    if isinstance(step, sp.Max) and len(step.args) == 2 and sp.Integer(1) in step.args:        # max(round(x), 1)
+        step = [a for a in step.args if a != 1][0]
+    if getattr(step.func, "__name__", "") in ("ROUND", "RINT") and len(step.args) == 1:
+        return step.args[0]
+    if isinstance(step, sp.floor) or getattr(step.func, "__name__", "") in ("INT", "FLOOR"):
+        inner = step.args[0]
+        if getattr(inner.func, "__name__", "") in ("ROUND", "RINT"):
+            return inner.args[0]
+        rest = inner - sp.Rational(1, 2)
+        if not rest.has(sp.Rational(1, 2)) and sp.simplify(inner - rest - sp.Rational(1, 2)) == 0 and not isinstance(rest, sp.Add):
+            return rest
+    return None
